@@ -108,3 +108,42 @@ h!(c10_fill_solid_v240x320, 3, c10_fill_solid_h::<240, 320>());
 //@ props=C10,C08,C02 tier=thorough inst="VModel<Rgb565,3,2>" bounds="same" timeout=900 mem=4
 h!(c10_fill_solid_v3x2, 3, c10_fill_solid_h::<3, 2>());
 const _O: Option<Orientation> = None;
+
+/// An external model may program (and return) an address mode that differs from the plain
+/// options, e.g. a BGR-wired panel; `set_orientation` must preserve those bits.
+pub struct BgrWired;
+impl mipidsi::models::Model for BgrWired {
+    type ColorFormat = Rgb565;
+    const FRAMEBUFFER_SIZE: (u16, u16) = (240, 320);
+    fn init<DELAY: embedded_hal::delay::DelayNs, DI: mipidsi::interface::Interface>(
+        &mut self,
+        di: &mut DI,
+        delay: &mut DELAY,
+        options: &mipidsi::options::ModelOptions,
+    ) -> Result<mipidsi::dcs::SetAddressMode, mipidsi::models::ModelInitError<DI::Error>> {
+        use mipidsi::dcs::InterfaceExt;
+        let madctl = mipidsi::dcs::SetAddressMode::from(options).with_color_order(mipidsi::options::ColorOrder::Bgr);
+        di.write_command(mipidsi::dcs::ExitSleepMode)?;
+        delay.delay_us(120_000);
+        di.write_command(madctl)?;
+        Ok(madctl)
+    }
+}
+
+#[kani::proof]
+#[kani::unwind(3)]
+//@ props=C10 inst="external model returning its own address mode (BGR-wired), then set_orientation" bounds="loop-free: all initial and new orientations, all refresh orders" timeout=400 mem=4
+fn c10_model_madctl_preserved() {
+    let mut world = World::new(NEVER);
+    let ctl = Ctl::<u8, 0, false>::new(&mut world, 240, 320, (0, 0));
+    let ro = any_refresh();
+    let Ok(mut d) = mipidsi::Builder::new(BgrWired, ctl).orientation(any_orientation()).refresh_order(ro).reset_pin(Pin).init(&mut NoDelay) else {
+        assert!(false, "[C10] init failed");
+        return;
+    };
+    let o = any_orientation();
+    d.set_orientation(o).unwrap();
+    let (ctl, _, _) = d.release();
+    assert!(ctl.c.madctl == expected_madctl(mipidsi::options::ColorOrder::Bgr, o, ro), "[C10] colour order and refresh order bits of the address mode programmed by the model are preserved across set_orientation");
+    kani::cover!(o.mirrored, "cover");
+}
